@@ -57,11 +57,28 @@ def check_inverse_transpose(r, f, call, inst, rule="DU"):
     for a in list(call.args) + [k.value for k in call.keywords]:
         if isinstance(a, ast.Lambda):
             lam = a
-    if lam is None or len(lam.args.args) != 1:
+        elif isinstance(a, ast.Name):
+            # a named inner function with a single `return <expr>`
+            for d in ast.walk(f.node):
+                if isinstance(d, ast.FunctionDef) and d.name == a.id \
+                        and d is not f.node:
+                    body = [x for x in d.body if not (
+                        isinstance(x, ast.Expr)
+                        and isinstance(x.value, ast.Constant))]
+                    if len(body) == 1 and isinstance(body[0], ast.Return) \
+                            and body[0].value is not None:
+                        lam = ast.Lambda(args=d.args, body=body[0].value)
+                        ast.copy_location(lam, d)
+    if lam is None:
+        r.note(rule, loc(f, call), dotted(call)[:120],
+               "the composed map is not a lambda / single-return inner "
+               "function the rule can read (not judged)")
+        return
+    if len(lam.args.args) != 1:
         r.violation(rule, f"{f.fq}|{inst}|shape", loc(f, call),
                     dotted(call)[:140],
                     "the dual is not built by composing with a "
-                    "one-argument lambda; inverse-transpose not recognisable",
+                    "one-argument map; inverse-transpose not recognisable",
                     instance=inst)
         return
     ops = ops_chain(lam.body, lam.args.args[0].arg)
